@@ -9,7 +9,7 @@ func init() {
 		Redirects: map[string]string{
 			interpPath + ".genGlobalVars": "vmGenGlobalVarsFail",
 			"(*" + interpPath + ".node).cfgErrorf": "vmRuleErrorf",
-			interpPath + ".vhGoAcceptsBinary": "vmGoAcceptsBinary", interpPath + ".vhGoAcceptsUnary": "vmGoAcceptsUnary", interpPath + ".vhGoAcceptsAssign": "vmGoAcceptsAssign", interpPath + ".vhGoAcceptsConst": "vmGoAcceptsConst", interpPath + ".vhGoAcceptsAssignConst": "vmGoAcceptsAssignConst",
+			interpPath + ".vhGoAcceptsBinary": "vmGoAcceptsBinary", interpPath + ".vhGoAcceptsUnary": "vmGoAcceptsUnary", interpPath + ".vhGoAcceptsAssign": "vmGoAcceptsAssign", interpPath + ".vhGoAcceptsConst": "vmGoAcceptsConst", interpPath + ".vhGoAcceptsAssignConst": "vmGoAcceptsAssignConst", interpPath + ".vhGoAcceptsAssert": "vmGoAcceptsAssert",
 			ip + "parse": "vmParse", ip + "ast": "vmAst", ip + "gtaRetry": "vmGtaRetry", ip + "cfg": "vmCfg", ip + "Execute": "vmExecute",
 		},
 		Obligs: func(tier string) []Oblig {
@@ -21,7 +21,7 @@ func init() {
 			if tier == "thorough" {
 				bits = 200
 			}
-			rules := []string{"vmRuleErrorf", "vmGoAcceptsBinary", "vmGoAcceptsUnary", "vmGoAcceptsAssign", "vmGoAcceptsConst", "vmGoAcceptsAssignConst"}
+			rules := []string{"vmRuleErrorf", "vmGoAcceptsBinary", "vmGoAcceptsUnary", "vmGoAcceptsAssign", "vmGoAcceptsConst", "vmGoAcceptsAssignConst", "vmGoAcceptsAssert"}
 			for op := 0; op < 19; op++ {
 				r = append(r, Oblig{Harness: "vh_C12_binary", Unroll: 24, KeepRedirects: rules, Globals: map[string]int{"vhRuleOp": op}})
 			}
@@ -29,6 +29,10 @@ func init() {
 				r = append(r, Oblig{Harness: "vh_C12_unary", Unroll: 24, KeepRedirects: rules, Globals: map[string]int{"vhRuleOp": op}})
 			}
 			r = append(r, Oblig{Harness: "vh_C12_assign", Unroll: 24, KeepRedirects: rules})
+			for op := 0; op < 19; op++ {
+				r = append(r, Oblig{Harness: "vh_C12_cfg", Unroll: 40, KeepRedirects: rules, Globals: map[string]int{"vhRuleOp": op}})
+			}
+			r = append(r, Oblig{Harness: "vh_C12_cfg_assert", Unroll: 40, KeepRedirects: rules})
 			for ck := 0; ck <= 2; ck++ {
 				r = append(r, Oblig{Harness: "vh_C12_assignconst", Unroll: 24, KeepRedirects: rules, Globals: map[string]int{"vhConstKind": ck, "vhConstBits": bits}})
 			}
@@ -47,6 +51,6 @@ func init() {
 		Bounds:      []string{"every combination of outcomes (error / success) of the stages parse, ast, gtaRetry, cfg; ast may also yield no root", "type rules: 19 binary and 4 unary operators, assignment, on variables of the 17 predeclared basic types; one operand an untyped constant: integer of any value with |v| <= 2^70 (thorough 2^200), true, or a string, on either side"},
 		Assumptions: []string{"the compile stages are replaced by models that fail on command (their own type rules are outside)", "Execute replaced by a counter (eval obligation); in the Execute obligation the real Execute runs with genGlobalVars failing on command"},
 		Stubs:       []string{"(*Interpreter).parse", "(*Interpreter).ast", "(*Interpreter).gtaRetry", "(*Interpreter).cfg", "(*Interpreter).Execute"},
-		Outside:     []string{"type rules beyond binary/unary/assignment on basic types (composite and named types, conversions, builtins, literals, call arguments, channel directions)", "untyped float/complex/rune constants", "the checker's call sites in cfg.go", "code that cfg itself runs while compiling (source imports)", "EvalPath/importSrc"},
+		Outside:     []string{"type rules beyond binary/unary/assignment on basic types (composite and named types, conversions, builtins, literals, call arguments, channel directions)", "untyped float/complex/rune constants", "call sites of the checker in cfg.go other than binary/logical expressions and type assertions", "code that cfg itself runs while compiling (source imports)", "EvalPath/importSrc"},
 	}
 }
